@@ -128,8 +128,18 @@ template <class T> static void run(const std::string& op, char e, const std::vec
     bool ok = (e == '<') ? x.template decode<prophy::little>(data, in.size())
             : (e == '>') ? x.template decode<prophy::big>(data, in.size())
                          : x.decode(data, in.size());
+    // the same input decoded into an object that earlier commands of this process already decoded into
+    // (accepted or refused half-way): decode has to overwrite whatever the object held
+    static T reused;
+    bool rok = (e == '<') ? reused.template decode<prophy::little>(data, in.size())
+             : (e == '>') ? reused.template decode<prophy::big>(data, in.size())
+                          : reused.decode(data, in.size());
     delete[] data;
-    std::cout << "R ok=" << int(ok);
+    std::cout << "R ok=" << int(ok) << " rok=" << int(rok);
+    if (rok) {
+        std::vector<uint8_t> rl = reused.template encode<prophy::little>();
+        std::cout << " rgbs=" << reused.get_byte_size() << " rencL=" << hex(rl.data(), rl.size());
+    }
     if (ok) {
         if (op == "over") over(x, k);
         observe(x);
@@ -232,10 +242,10 @@ def parse_result(line):
             out[k] = v
         else:
             out[tok] = True
-    for k in ('encL', 'encB', 'encN', 'ptrLhex', 'print'):
+    for k in ('encL', 'encB', 'encN', 'ptrLhex', 'print', 'rencL'):
         if k in out:
             out[k] = b'' if out[k] == '-' else bytes.fromhex(out[k])
-    for k in ('ok', 'gbs', 'ebs', 'ptrL', 'ptrB', 'ptrN'):
+    for k in ('ok', 'gbs', 'ebs', 'ptrL', 'ptrB', 'ptrN', 'rok', 'rgbs'):
         if k in out:
             out[k] = int(out[k])
     return out
@@ -437,21 +447,33 @@ def gen_raw_driver(schema, rw):
 class RawTU(object):
     """schema -> prophyc --cpp_out -> layout/swap driver -> executable."""
 
-    def __init__(self, schema, workdir=None, sanitize=True):
+    def __init__(self, schema, workdir=None, sanitize=True, layout=None):
+        """layout: a multifile.Layout of the same schema - the definitions are then spread over several files that
+        include each other, all compiled in one prophyc run, and the driver includes every generated header."""
         from .refwire import RefWire
         self.schema = schema
         self.dir = workdir or pyh.fresh_dir('raw')
         self.text = schema.to_prophy()
-        src = os.path.join(self.dir, 'm.prophy')
-        with open(src, 'w') as f:
-            f.write(self.text)
-        self.nodes = pyh.run_prophyc([src, '--cpp_out', self.dir])['m']
         self.rw = RefWire(schema)
         drv, self.facts = gen_raw_driver(schema, self.rw)
+        if layout is None:
+            src = os.path.join(self.dir, 'm.prophy')
+            with open(src, 'w') as f:
+                f.write(self.text)
+            self.nodes = pyh.run_prophyc([src, '--cpp_out', self.dir])['m']
+            sources = ['m.pp.cpp']
+        else:
+            layout.arrangement = 'flat'
+            paths = layout.write(self.dir)
+            self.text = '\n'.join('// %s\n%s' % (os.path.basename(p), layout.text(i)) for i, p in enumerate(paths))
+            self.nodes = pyh.run_prophyc(paths + ['--cpp_out', self.dir])
+            stems = [layout.stem(i) for i in range(layout.nfiles)]
+            drv = drv.replace('#include "m.pp.hpp"', '\n'.join('#include "%s.pp.hpp"' % st_ for st_ in reversed(stems)))
+            sources = ['%s.pp.cpp' % st_ for st_ in stems]
         with open(os.path.join(self.dir, 'driver.cpp'), 'w') as f:
             f.write(drv)
         self.exe = os.path.join(self.dir, 'drv')
-        compile_cxx(['driver.cpp', 'm.pp.cpp'], self.exe, self.dir, sanitize=sanitize)
+        compile_cxx(['driver.cpp'] + sources, self.exe, self.dir, sanitize=sanitize)
 
     def layout(self):
         """-> list of (label, expected, observed)"""
